@@ -61,7 +61,16 @@ func TestWorker(t *testing.T) {
 			p.Judge = job.Judge
 		}
 		_ = os.WriteFile(job.Out+".cur", []byte(p.JSON()), 0o644)
-		res := RunPlan(t, p, job.Trace)
+		var res *Result
+		if p.Family == "c17lib" {
+			res = RunC17(t, p.Seed)
+			progress.Add(1)
+		} else if p.Family == "c14sim" {
+			res = RunC14(t, p.Seed)
+			progress.Add(1)
+		} else {
+			res = RunPlan(t, p, job.Trace)
+		}
 		if len(res.Viol) > 0 || i < job.KeepPlans || job.Mode == "plans" {
 			res.Plan = p
 		}
@@ -83,6 +92,14 @@ func TestWorker(t *testing.T) {
 			}
 			if job.DeadlineMs > 0 && time.Now().UnixMilli() > job.DeadlineMs {
 				break
+			}
+			if job.Family == "c17lib" {
+				emit(&Plan{Seed: job.SeedStart + uint64(i), Family: "c17lib", Judge: []string{"C17"}}, i)
+				continue
+			}
+			if job.Family == "c14sim" {
+				emit(&Plan{Seed: job.SeedStart + uint64(i), Family: "c14sim", Judge: []string{"C14"}}, i)
+				continue
 			}
 			emit(GenPlan(job.Family, job.SeedStart+uint64(i)), i)
 		}
